@@ -1,6 +1,7 @@
 package lib
 
 import (
+	"time"
 	"encoding/json"
 	"fmt"
 	"os"
@@ -113,7 +114,11 @@ func evalOutcome(f *Forest, src string, res []fhir.Resource, copts []fhirpath.Co
 			if atomic.AddInt64(&burstN, 1)%16 == 0 {
 				reps = 100
 			}
+			t0 := time.Now()
 			for k := 0; k < reps; k++ {
+				if k >= 1 && time.Since(t0) > 30*time.Millisecond {
+					break // the repetitions must never push a slow evaluation towards its deadline
+				}
 				if again := run(); !SameOutcome(out, again) {
 					out = Outcome{"k": "panic", "site": "unstable", "msg": "the same compiled expression evaluated again on the same inputs gave another outcome"}
 					return
